@@ -30,7 +30,8 @@ The informer cache (cache.go + the underlying controller-runtime cache) is model
             the old one are gone, adding a handler to the old one fails as client-go does
             for a stopped informer),
   regs    : the handler registrations on the live informers, with ghost owner fields.
-GetInformer / RemoveInformer / ActiveInformers take the cache's own RW lock around one
+GetInformer (and Get, List, GetInformerForKind: `Op.cacheRead`, the same effect on `tracked` and
+`live`, for a List under the kind of the list's ITEMS) / RemoveInformer / ActiveInformers take the cache's own RW lock around one
 atomic map access plus the call into the underlying cache; no engine lock is ever
 requested while it is held, so each is a single step here.
 
@@ -115,6 +116,8 @@ inductive Op
   | gc (n : Nat) (xrs : List XR)        -- GarbageCollectWatchesNow; xrs = what its List of the XRs returns
                                         -- (one call; the GarbageCollector object lives across calls and keeps nothing)
   | removeInformer (g : Nat)
+  | cacheRead (g : Nat)                 -- Get / List / GetInformerForKind of kind g on the InformerTrackingCache
+                                        -- (the other entry points of cache.go that mark an informer active)
   deriving DecidableEq, Repr
 
 /-- ghost event log (newest first) -/
@@ -374,6 +377,8 @@ def next (cfg : Cfg) (s : Sys) (i : Nat) (t : Thread) (ch : Choice) : Option (Pc
     | .gc n xrs =>                                -- gc.engine.GetCached().List(ctx, l); used := every ref of every item
       if ch.fault then some (.done .err, .nop) else some (.gc1 n (refsOf xrs), .nop)
     | .removeInformer g => some (.done .ok, .rmInformer g)
+    | .cacheRead g =>                             -- c.active[gvk] = true; c.Cache.Get / List / GetInformerForKind
+      some (.done (if ch.fault then .err else .ok), .getInformer g ch.fault)
   | .relE r => some (.done r, .nop)
   | .relCE cid r => some (.relE r, .nop)
   | .relC _ r => some (.done r, .nop)
